@@ -271,7 +271,7 @@ impl GenArguments {
 
 //@@ FN src/lib.rs | free | mamba_to_python | props=C19,C01,C11,C13,C03
 //@@ REPLACE pin=143830d79765
-//@@< let strip_prefix = |p: PathBuf| { $$ };
+//@@< let strip_prefix = |$sp: PathBuf| { $$ };
 //@@> let ghost source0 = source@;
 //@@ REPLACE
 //@@< source .iter() .map(|(src, dir)| (src.clone(), dir.clone().map(strip_prefix))) .collect()
@@ -302,8 +302,8 @@ impl GenArguments {
 //@@< parse_errs.into_iter().map(Result::unwrap_err).collect()
 //@@> verif_unwrap_errs(parse_errs)
 //@@ REPLACE deep
-//@@< return Err(parse_errs.iter().map(|err| $$).collect());
-//@@> let verif_msgs = verif_map_collect(&parse_errs, |err: &ParseErr| -> (s: String) ensures /*# a_syntax_diagnostic_is_the_rendering_of_its_error [C19] #*/ s@ == rendered(*err), { $$1 }, Ghost(|e: ParseErr, s: String| s@ == rendered(e))); proof { assert forall|k: int| 0 <= k < verif_msgs@.len() implies belongs_somewhere(#[trigger] verif_msgs@[k]@, source0, *source_dir, pipeline_args.annotate) by { let i = from1[k]; assert(m1[i] == Err::<AST, ParseErr>(parse_errs@[k])); assert(parse_post(source@[i], m1[i])); /*# a_syntax_diagnostic_belongs_to_the_file_it_names [C19] #*/ assert(parse_diag(verif_msgs@[k]@, file_of(source0, *source_dir, i), parse_errs@[k])); assert(diag_of(verif_msgs@[k]@, file_of(source0, *source_dir, i), pipeline_args.annotate)); } } return Err(verif_msgs);
+//@@< parse_errs.iter().map(|err| $$).collect()
+//@@> { let verif_msgs = verif_map_collect(&parse_errs, |err: &ParseErr| -> (s: String) ensures /*# a_syntax_diagnostic_is_the_rendering_of_its_error [C19] #*/ s@ == rendered(*err), { $$1 }, Ghost(|e: ParseErr, s: String| s@ == rendered(e))); proof { assert forall|k: int| 0 <= k < verif_msgs@.len() implies belongs_somewhere(#[trigger] verif_msgs@[k]@, source0, *source_dir, pipeline_args.annotate) by { let i = from1[k]; assert(m1[i] == Err::<AST, ParseErr>(parse_errs@[k])); assert(parse_post(source@[i], m1[i])); /*# a_syntax_diagnostic_belongs_to_the_file_it_names [C19] #*/ assert(parse_diag(verif_msgs@[k]@, file_of(source0, *source_dir, i), parse_errs@[k])); assert(diag_of(verif_msgs@[k]@, file_of(source0, *source_dir, i), pipeline_args.annotate)); } } verif_msgs }
 //@@ REPLACE
 //@@< asts.into_iter().map(Result::unwrap).collect()
 //@@> verif_unwrap_oks(asts)
@@ -331,8 +331,8 @@ impl GenArguments {
 //@@< type_errs.into_iter().map(Result::unwrap_err).collect()
 //@@> verif_unwrap_errs(type_errs)
 //@@ REPLACE deep
-//@@< return Err(type_errs .iter() .flatten() .map(|err| $$) .collect());
-//@@> let (verif_msgs, Ghost(at2)) = verif_flatten_map_collect(&type_errs, |err: &TypeErr| -> (s: String) ensures /*# a_type_diagnostic_is_the_rendering_of_its_error [C19] #*/ s@ == rendered(*err), { $$1 }, Ghost(|e: TypeErr, s: String| s@ == rendered(e))); proof { assert(m2[from2[0]] == Err::<ASTTy, Vec<TypeErr>>(type_errs@[0])); assert(check_post(asts@[from2[0]], source@[from2[0]], ctx, m2[from2[0]])); assert forall|q: int| 0 <= q < verif_msgs@.len() implies belongs_somewhere(#[trigger] verif_msgs@[q]@, source0, *source_dir, pipeline_args.annotate) by { let k = at2[q].0; let j = at2[q].1; let i = from2[k]; assert(m2[i] == Err::<ASTTy, Vec<TypeErr>>(type_errs@[k])); assert(check_post(asts@[i], source@[i], ctx, m2[i])); /*# a_type_diagnostic_belongs_to_the_file_it_names [C19] #*/ assert(type_diag(verif_msgs@[q]@, file_of(source0, *source_dir, i), ctx, j, type_errs@[k]@[j])); assert(diag_of(verif_msgs@[q]@, file_of(source0, *source_dir, i), pipeline_args.annotate)); } } return Err(verif_msgs);
+//@@< type_errs .iter() .flatten() .map(|err| $$) .collect()
+//@@> { let (verif_msgs, Ghost(at2)) = verif_flatten_map_collect(&type_errs, |err: &TypeErr| -> (s: String) ensures /*# a_type_diagnostic_is_the_rendering_of_its_error [C19] #*/ s@ == rendered(*err), { $$1 }, Ghost(|e: TypeErr, s: String| s@ == rendered(e))); proof { assert(m2[from2[0]] == Err::<ASTTy, Vec<TypeErr>>(type_errs@[0])); assert(check_post(asts@[from2[0]], source@[from2[0]], ctx, m2[from2[0]])); assert forall|q: int| 0 <= q < verif_msgs@.len() implies belongs_somewhere(#[trigger] verif_msgs@[q]@, source0, *source_dir, pipeline_args.annotate) by { let k = at2[q].0; let j = at2[q].1; let i = from2[k]; assert(m2[i] == Err::<ASTTy, Vec<TypeErr>>(type_errs@[k])); assert(check_post(asts@[i], source@[i], ctx, m2[i])); /*# a_type_diagnostic_belongs_to_the_file_it_names [C19] #*/ assert(type_diag(verif_msgs@[q]@, file_of(source0, *source_dir, i), ctx, j, type_errs@[k]@[j])); assert(diag_of(verif_msgs@[q]@, file_of(source0, *source_dir, i), pipeline_args.annotate)); } } verif_msgs }
 //@@ REPLACE
 //@@< typed_ast .into_iter() .map(Result::unwrap) .collect::<Vec<ASTTy>>()
 //@@> verif_unwrap_oks(typed_ast)
@@ -350,8 +350,8 @@ impl GenArguments {
 //@@< gen_errs.into_iter().map(Result::unwrap_err).collect()
 //@@> verif_unwrap_errs(gen_errs)
 //@@ REPLACE deep
-//@@< return Err(gen_errs.iter().map(|err| $$).collect());
-//@@> let verif_msgs = verif_map_collect(&gen_errs, |err: &UnimplementedErr| -> (s: String) ensures /*# a_generation_diagnostic_is_the_rendering_of_its_error [C19] #*/ s@ == rendered(*err), { $$1 }, Ghost(|e: UnimplementedErr, s: String| s@ == rendered(e))); proof { assert forall|k: int| 0 <= k < verif_msgs@.len() implies belongs_somewhere(#[trigger] verif_msgs@[k]@, source0, *source_dir, pipeline_args.annotate) by { let i = from3[k]; assert(m3[i] == Err::<String, UnimplementedErr>(gen_errs@[k])); assert(gen_post(typed_ast@[i], source@[i], ctx, pipeline_args.annotate, m3[i])); /*# a_generation_diagnostic_belongs_to_the_file_it_names [C19] #*/ assert(gen_diag(verif_msgs@[k]@, file_of(source0, *source_dir, i), ctx, pipeline_args.annotate, gen_errs@[k])); assert(diag_of(verif_msgs@[k]@, file_of(source0, *source_dir, i), pipeline_args.annotate)); } } return Err(verif_msgs);
+//@@< gen_errs.iter().map(|err| $$).collect()
+//@@> { let verif_msgs = verif_map_collect(&gen_errs, |err: &UnimplementedErr| -> (s: String) ensures /*# a_generation_diagnostic_is_the_rendering_of_its_error [C19] #*/ s@ == rendered(*err), { $$1 }, Ghost(|e: UnimplementedErr, s: String| s@ == rendered(e))); proof { assert forall|k: int| 0 <= k < verif_msgs@.len() implies belongs_somewhere(#[trigger] verif_msgs@[k]@, source0, *source_dir, pipeline_args.annotate) by { let i = from3[k]; assert(m3[i] == Err::<String, UnimplementedErr>(gen_errs@[k])); assert(gen_post(typed_ast@[i], source@[i], ctx, pipeline_args.annotate, m3[i])); /*# a_generation_diagnostic_belongs_to_the_file_it_names [C19] #*/ assert(gen_diag(verif_msgs@[k]@, file_of(source0, *source_dir, i), ctx, pipeline_args.annotate, gen_errs@[k])); assert(diag_of(verif_msgs@[k]@, file_of(source0, *source_dir, i), pipeline_args.annotate)); } } verif_msgs }
 //@@ REPLACE
 //@@< py_sources.into_iter().map(Result::unwrap).collect()
 //@@> verif_unwrap_oks(py_sources)
